@@ -79,7 +79,7 @@ def configs(tier):
     out = []
     if tier == "quick":
         S = [(1, True, -1, False), (2, True, -1, False), (1, False, -1, False), (1, True, -1, True), (2, False, 1, False), (1, True, 1, True)]
-        L = [(2, True, 1, False), (3, True, 2, False), (2, False, 1, False)]
+        L = [(2, True, 1, False), (3, True, 2, False), (2, False, 1, False), (2, True, 1, True)]  # (the last: evicted templates come back through their module files)
     else:
         S = [(nd, fs, cs, md) for nd in (1, 2, 3) for fs in (True, False) for cs in (-1, 1) for md in (False, True) if nd < 3 or md == (cs == 1)]
         L = [(nu, fs, cs, md) for (nu, cs) in ((2, 1), (3, 1), (3, 2), (4, 2), (5, 4), (7, 4)) for fs in (True, False) for md in (False, True) if nu < 5 or (fs and not md)]
